@@ -7,23 +7,23 @@ set -u
 cmd=$1; shift
 case $cmd in
 confirm)
-  wt=$1; id=$2; prop=$3
+  wt=$1; id=$2; prop=$3; sd=${4:-seed}
   cd "$wt" || exit 2
   git checkout -q -- . ; rm -f seed_demo_test.go
-  cp seed/seed_demo_test.go . || exit 2
+  cp $sd/seed_demo_test.go . || exit 2
   go test -count=1 -run TestSeedDemo . >/tmp/seed_$$.log 2>&1; clean_demo=$?
-  git apply seed/patch.diff || { echo "patch does not apply"; exit 1; }
+  git apply $sd/patch.diff || { echo "patch does not apply"; exit 1; }
   go test -count=1 -run TestSeedDemo . >/tmp/seed_$$.log2 2>&1; seeded_demo=$?
   mv seed_demo_test.go /tmp/seed_demo_$$.go
   go build . ./astisub && go build -tags verif . && go test -count=1 . ./astisub >/tmp/seed_$$.log3 2>&1; suite=$?
   echo "demo on clean tree rc=$clean_demo (want 0); demo on seeded tree rc=$seeded_demo (want !=0); suite on seeded tree rc=$suite (want 0)"
   if [ $clean_demo -eq 0 ] && [ $seeded_demo -ne 0 ] && [ $suite -eq 0 ]; then
     mkdir -p /verif/seeded/$id
-    cp seed/patch.diff /verif/seeded/$id/patch.diff
+    cp $sd/patch.diff /verif/seeded/$id/patch.diff
     cp /tmp/seed_demo_$$.go /verif/seeded/$id/seed_demo_test.go
     python3 - "$id" "$prop" <<PY
 import json,sys
-m=json.load(open('seed/meta.json'))
+m=json.load(open('$sd/meta.json'))
 m['property']=sys.argv[2]
 m['confirmed_by_me']={'demo_passes_on_clean_tree':True,'demo_fails_on_seeded_tree':True,'existing_suite_passes_on_seeded_tree':True,
   'how':'seedtool.sh confirm: git checkout -- . ; go test -run TestSeedDemo (pass); git apply patch.diff; go test -run TestSeedDemo (fail); go test ./... without the demo (pass); also builds with -tags verif'}
